@@ -609,15 +609,55 @@ type vAckModel struct {
 	set map[uint32]bool
 }
 
-func vCheckAcks(st *vStats, a *AcksToSend, model map[uint32]bool, hist [][2]uint32) bool {
-	got := 0
-	// prefix
-	for x := uint32(0); x < a.ackPrefix; x++ {
+// vAllRecorded: every number of [from, to] is in the model (counting instead of walking when the range is wide); witness = an unrecorded number
+func vAllRecorded(model map[uint32]bool, from, to uint32) (bool, uint32) {
+	size := uint64(to) - uint64(from) + 1
+	if size > 4096 {
+		cnt := uint64(0)
+		for x := range model {
+			if x >= from && x <= to {
+				cnt++
+			}
+		}
+		if cnt == size {
+			return true, 0
+		}
+		for x, k := from, 0; k < 4096; x, k = x+1, k+1 {
+			if !model[x] {
+				return false, x
+			}
+		}
+		return false, from + 4096
+	}
+	for x := from; ; x++ {
 		if !model[x] {
-			st.violation("acks", "set", fmt.Sprintf("prefix [0..%d) contains unrecorded %d", a.ackPrefix, x), hist)
+			return false, x
+		}
+		if x == to {
+			return true, 0
+		}
+	}
+}
+
+// vNoneRecorded: no number of [from, to] is in the model; witness = a recorded number
+func vNoneRecorded(model map[uint32]bool, from, to uint32) (bool, uint32) {
+	for x := range model {
+		if x >= from && x <= to {
+			return false, x
+		}
+	}
+	return true, 0
+}
+
+func vCheckAcks(st *vStats, a *AcksToSend, model map[uint32]bool, hist [][2]uint32) bool {
+	got := uint64(0)
+	// prefix
+	if a.ackPrefix > 0 {
+		if ok, w := vAllRecorded(model, 0, a.ackPrefix-1); !ok {
+			st.violation("acks", "set", fmt.Sprintf("prefix [0..%d) contains unrecorded %d", a.ackPrefix, w), hist)
 			return false
 		}
-		got++
+		got += uint64(a.ackPrefix)
 	}
 	prevTo := int64(a.ackPrefix) - 1
 	for rg := a.firstRange; rg != nil; rg = rg.next {
@@ -630,18 +670,13 @@ func vCheckAcks(st *vStats, a *AcksToSend, model map[uint32]bool, hist [][2]uint
 			return false
 		}
 		prevTo = int64(rg.ackTo)
-		for x := rg.ackFrom; ; x++ {
-			if !model[x] {
-				st.violation("acks", "set", fmt.Sprintf("range [%d,%d] contains unrecorded %d", rg.ackFrom, rg.ackTo, x), hist)
-				return false
-			}
-			got++
-			if x == rg.ackTo {
-				break
-			}
+		if ok, w := vAllRecorded(model, rg.ackFrom, rg.ackTo); !ok {
+			st.violation("acks", "set", fmt.Sprintf("range [%d,%d] contains unrecorded %d", rg.ackFrom, rg.ackTo, w), hist)
+			return false
 		}
+		got += uint64(rg.ackTo) - uint64(rg.ackFrom) + 1
 	}
-	if got != len(model) {
+	if got != uint64(len(model)) {
 		st.violation("acks", "set", fmt.Sprintf("structure holds %d numbers, %d were recorded", got, len(model)), hist)
 		return false
 	}
@@ -649,14 +684,9 @@ func vCheckAcks(st *vStats, a *AcksToSend, model map[uint32]bool, hist [][2]uint
 	var enc tlnetUdpPacket.EncHeader
 	a.BuildAck(&enc)
 	if enc.IsSetPacketAckPrefix() {
-		for x := uint32(0); ; x++ {
-			if !model[x] {
-				st.violation("acks", "ack-header", fmt.Sprintf("ack prefix %d acknowledges unrecorded %d", enc.PacketAckPrefix, x), hist)
-				return false
-			}
-			if x == enc.PacketAckPrefix {
-				break
-			}
+		if ok, w := vAllRecorded(model, 0, enc.PacketAckPrefix); !ok {
+			st.violation("acks", "ack-header", fmt.Sprintf("ack prefix %d acknowledges unrecorded %d", enc.PacketAckPrefix, w), hist)
+			return false
 		}
 	} else if model[0] {
 		st.violation("acks", "ack-header", "number 0 recorded but no ack prefix in the header", hist)
@@ -671,14 +701,9 @@ func vCheckAcks(st *vStats, a *AcksToSend, model map[uint32]bool, hist [][2]uint
 			st.violation("acks", "ack-header", fmt.Sprintf("ack range [%d,%d] inverted", enc.PacketAckFrom, enc.PacketAckTo), hist)
 			return false
 		}
-		for x := enc.PacketAckFrom; ; x++ {
-			if !model[x] {
-				st.violation("acks", "ack-header", fmt.Sprintf("ack range [%d,%d] acknowledges unrecorded %d", enc.PacketAckFrom, enc.PacketAckTo, x), hist)
-				return false
-			}
-			if x == enc.PacketAckTo {
-				break
-			}
+		if ok, w := vAllRecorded(model, enc.PacketAckFrom, enc.PacketAckTo); !ok {
+			st.violation("acks", "ack-header", fmt.Sprintf("ack range [%d,%d] acknowledges unrecorded %d", enc.PacketAckFrom, enc.PacketAckTo, w), hist)
+			return false
 		}
 	}
 	if enc.IsSetPacketAckSet() {
@@ -700,14 +725,9 @@ func vCheckAcks(st *vStats, a *AcksToSend, model map[uint32]bool, hist [][2]uint
 			st.violation("acks", "nack-header", fmt.Sprintf("resend range [%d,%d] inverted", rr.PacketNumFrom, rr.PacketNumTo), hist)
 			return false
 		}
-		for x := rr.PacketNumFrom; ; x++ {
-			if model[x] {
-				st.violation("acks", "nack-header", fmt.Sprintf("resend range [%d,%d] requests recorded %d", rr.PacketNumFrom, rr.PacketNumTo, x), hist)
-				return false
-			}
-			if x == rr.PacketNumTo {
-				break
-			}
+		if ok, w := vNoneRecorded(model, rr.PacketNumFrom, rr.PacketNumTo); !ok {
+			st.violation("acks", "nack-header", fmt.Sprintf("resend range [%d,%d] requests recorded %d", rr.PacketNumFrom, rr.PacketNumTo, w), hist)
+			return false
 		}
 	}
 	if a.firstRange != nil && len(req.Ranges) == 0 {
@@ -793,6 +813,22 @@ func TestVerifC37(t *testing.T) {
 				to = f
 			}
 			hist = append(hist, [2]uint32{f, to})
+		}
+		if i%5 == 4 {
+			// sparse ranges far from the prefix (the domain is 32 bits wide and does not wrap): short ranges around 2^31, 2^31+2^30 and just below 2^32,
+			// mixed with ranges near zero; the prefix itself stays small, so the element-wise model stays small
+			bases := []uint32{1<<31 - 3, 1 << 31, 1<<31 + 7, 3 << 30, 1<<32 - 12, 1 << 30, 1<<31 + 1<<29}
+			hist = hist[:len(hist)/2]
+			for j := 0; j < 1+r.Intn(5); j++ {
+				f := bases[r.Intn(len(bases))] + uint32(r.Intn(6))
+				to := f + uint32(r.Intn(4))
+				if to < f {
+					to = 1<<32 - 1
+				}
+				hist = append(hist, [2]uint32{f, to})
+			}
+			r.Shuffle(len(hist), func(a, b int) { hist[a], hist[b] = hist[b], hist[a] })
+			st.counters["far_histories"]++
 		}
 		st.counters["random_histories"]++
 		st.distinct[fmt.Sprint(hist)] = true
